@@ -295,13 +295,15 @@ class Check:
             self.traces_validated += len(traces)
             return None
         out = res["out"]
-        m = re.search(r"/\\ tid = (\d+)", out)
-        ml = re.search(r"/\\ l = (\d+)", out)
+        mm = re.findall(r"/\\ tid = (\d+)", out)
+        mls = re.findall(r"/\\ l = (\d+)", out)
+        m = mm[-1] if mm else None
+        ml = mls[-1] if mls else None
         if not m:
             raise MachineryFailure("trace validation failed without a state:"
                                    "\n" + out[-3000:])
         i = out.find("Error:")
-        return {"tid": int(m.group(1)), "l": int(ml.group(1)) if ml else None,
+        return {"tid": int(m), "l": int(ml) if ml else None,
                 "violated": res["violated"], "state": out[i:i + 1500]}
 
     # ----------------------------------------------------------------- finish
